@@ -265,7 +265,7 @@ def _strip_add(fn, op):
 def seq_restore(r, F):
     fn = F.fn("foyer_storage::engine::block::recover::RecoverRunner::run::{closure#0}")
     st = fn.calls_to(r"atomic::Atomic::<u64>::store$")
-    st = [b for b in st if "sequence" in backslice(fn, b.term.args[0], "prov").upvars or backslice(fn, b.term.args[0], "prov").has_field("sequence")]
+    st = [b for b in st if backslice(fn, b.term.args[0], "prov").upvars & mir.upvars_from_param(F, fn, 5) or backslice(fn, b.term.args[0], "prov").has_field("sequence")] or st
     if len(st) != 1:
         raise AnchorMissing("RecoverRunner::run: the store on the sequence counter was not found exactly once (%d)" % len(st))
     base, gplus = _strip_add(fn, st[0].term.args[1])
